@@ -11,5 +11,7 @@ if os.path.exists(mp):
     lines = open(mp).read().splitlines()
     matrix = "\n".join(l for l in lines if l.startswith("|"))
 tail = tail.replace("SEED_MATRIX_PLACEHOLDER", matrix or "(run tools/seed_matrix.py)")
+rp = os.path.join(HERE, "refactors", "MATRIX.md")
+tail = tail.replace("REFACTOR_MATRIX_PLACEHOLDER", open(rp).read().strip() if os.path.exists(rp) else "(no refactor round yet)")
 open(os.path.join(HERE, "DESIGN.md"), "w").write(head + sections + "\n" + tail)
 print("DESIGN.md written")
